@@ -696,9 +696,24 @@ func createConnHandler(
 				}()
 			}
 			var outErr error
+			var sentHeader bool
 			for {
 				reply := dynamicpb.NewMessage(replyDesc)
-				if outErr = clientStream.RecvMsg(reply); outErr != nil {
+				outErr = clientStream.RecvMsg(reply)
+				if !sentHeader {
+					// The backend's header metadata is known once the
+					// first receive has returned.
+					sentHeader = true
+					if header, err := clientStream.Header(); err == nil {
+						_ = stream.SetHeader(header)
+					}
+				}
+				if outErr != nil || !sd.ServerStreams {
+					// The backend stream has ended: its trailer metadata
+					// accompanies the status, failing or not.
+					stream.SetTrailer(clientStream.Trailer())
+				}
+				if outErr != nil {
 					break
 				}
 
@@ -711,14 +726,12 @@ func createConnHandler(
 				}
 			}
 
-			if isStreamError(outErr) {
-				return outErr
-			}
 			// The backend has finished: its status is the result of the
 			// call whether or not the client is still sending. The pump
 			// ends when the server closes the request stream.
-			trailer := clientStream.Trailer()
-			stream.SetTrailer(trailer)
+			if isStreamError(outErr) {
+				return outErr
+			}
 			return nil
 		}
 
@@ -743,7 +756,12 @@ func createConnHandler(
 				ctx = metadata.NewOutgoingContext(ctx, md)
 			}
 
-			if err := cc.Invoke(ctx, method, args, reply); err != nil {
+			var header, trailer metadata.MD
+			err := cc.Invoke(ctx, method, args, reply, grpc.Header(&header), grpc.Trailer(&trailer))
+			// The backend's metadata belongs to the reply, failing or not.
+			_ = grpc.SetHeader(ctx, header)
+			_ = grpc.SetTrailer(ctx, trailer)
+			if err != nil {
 				return nil, err
 			}
 			return reply, nil
